@@ -25,6 +25,7 @@ INVARIANTS
   OnlyOwnTopicAcked
   ReplayExact
   ReplayQueueCoversExpect
+  NeverForgotten
 PROPERTIES
   MC_CursorMonotone
   MC_ForeignTopicRejected
